@@ -399,6 +399,12 @@ impl Keyring {
             return false;
         }
 
+        // Tab characters are removed from every line when a keyring is parsed,
+        // so a name containing one could not be found again.
+        if name.contains('\t') {
+            return false;
+        }
+
         true
     }
 }
